@@ -247,6 +247,7 @@ func init() {
 			return mkSym(types.Float64, smt.Ite(c, termOf(args[1], types.Float64), termOf(args[2], types.Float64)))
 		},
 		"setupOnce": extSetupOnce,
+		"stepCount": func(fr *frame, args []value) value { return int(X.steps) },
 		"drain": func(fr *frame, args []value) value { drainOthers(); return nil },
 		// wide integer specification arithmetic
 		"wI":   func(fr *frame, args []value) value { return mkWide(wideOf(args[0])) },
